@@ -739,7 +739,23 @@ fn exec_dec(prop: &str, spec: &DecSpec, source: &mut dyn OpSource) -> RunOut {
     }
     // C09: had_errors is true exactly for the calls in which a substitution
     // happened is covered by the lock-step tuple comparison with the manual
-    // replica (its flag is set exactly when it appended U+FFFD).
+    // replica (its flag is set exactly when it appended U+FFFD). The lock-step
+    // replica deliberately mirrors the built-in loop's buffer handling, so it
+    // also hands the without-replacement method the 1-2 bytes that are left
+    // after a U+FFFD; a manual caller who keeps to the documented minimum
+    // never does that. Second oracle, therefore: the concatenated output
+    // equals the manual procedure run with its own ample buffers.
+    if prop == "C09" && complete && run.finished {
+        let m = reference_dec(spec.enc, spec.bom, false, spec.form16, &spec.stream);
+        if m.ok {
+            if let Some(d) = cmp_text(&run.text(spec.form16), &m.text) {
+                viols.push(viol("C09", "builtin-vs-manual-text", format!("with replacement (chunked) vs manual U+FFFD procedure with ample buffers: {}", d)));
+            }
+            if run.had_errors != !m.malformed.is_empty() {
+                viols.push(viol("C09", "had-errors-vs-manual", format!("had_errors (OR over calls) = {}, manual procedure met {} malformed sequences", run.had_errors, m.malformed.len())));
+            }
+        }
+    }
 
     let mut flags = Vec::new();
     if spec.skip_fast {
